@@ -76,7 +76,7 @@ def run(ctx):
         ctx.record("record-cs", ["-rounds", "8" if thorough else "4"], tr)
         ctx.check_trace("Trace_CS", "Trace_CS.cfg", tr, "trace-cs", must_have=("CS", "Rel"), run_marker="Round")
         tr = os.path.join(ctx.work, "concwrite.ndjson")
-        _race_record(ctx, race, "record-conc-write", ["-seed", seed, "-totals", "7,40,999,1000,1001,2003,3500" if thorough else "40,999,1001"], tr)
+        _race_record(ctx, race, "record-conc-write", ["-seed", seed, "-totals", "7,40,999,1000,1001,2003,3500" if thorough else "40,1001,2500"], tr)
         ctx.check_trace("Trace_Lib", "Trace_Lib.cfg", tr, "trace-conc-write(race build)", must_have=("ConcAddRows", "Exec"))
 
 
